@@ -105,6 +105,11 @@ class FakeSelector(selectors.BaseSelector):
         return self._ready()
 
 
+class ListenerError(Exception):
+    """Raised on purpose by the harness' misbehaving listeners; not an error of the driver when it surfaces in the loop's
+    exception handler (that is where `call_soon` callbacks that raise end up)."""
+
+
 class VLoop(asyncio.SelectorEventLoop):
     def __init__(self, world):
         self.world = world
@@ -117,6 +122,9 @@ class VLoop(asyncio.SelectorEventLoop):
 
     def _on_error(self, loop, context):
         exc = context.get("exception")
+        if isinstance(exc, ListenerError):
+            self.listener_errors = getattr(self, "listener_errors", 0) + 1
+            return
         self.errors.append({"message": context.get("message"), "exception": repr(exc)})
 
 
